@@ -228,7 +228,7 @@ func refBadfiltered(r *rules.NetworkRule, cands []*rules.NetworkRule, keys map[*
 func genC02(t *rapid.T) c02Case {
 	nl := rapid.IntRange(1, 3).Draw(t, "nlists")
 	c := c02Case{IDs: genListIDs(t, nl)}
-	hostsU := []string{"example.org", "www.example.org", "google.com", "a.com", "1.2.3.4", "notexample.org", "sub.example.org", "реклама.example", "счётчик.example", "abc.de", "track.track.example.net", "ab.cd.ab.cd"}
+	hostsU := []string{"example.org", "www.example.org", "google.com", "a.com", "1.2.3.4", "notexample.org", "sub.example.org", "реклама.example", "счётчик.example", "abc.de", "track.track.example.net", "ab.cd.ab.cd", zeroHashNames[0], zeroHashNames[1]} // the last two hash to 0
 	for _, cp := range hostColliders[:3] {
 		hostsU = append(hostsU, cp[0], cp[1])
 	}
